@@ -543,7 +543,7 @@ where
 
 pub fn run_root<A, S>(it: &mut Interp<'_>)
 where
-    A: BaseAllocator<S::GuaranteedAllocated> + Default,
+    A: BaseAllocator<S::GuaranteedAllocated> + BaseAllocator<bump_scope::settings::True> + Default,
     S: BumpAllocatorSettings,
 {
     let init = it.trace.param_or("init", 0);
@@ -632,7 +632,8 @@ where
     }
     // end of run: how the arena goes away
     let end = it.trace.param_or("end", 0);
-    match end % 3 {
+    match end % 6 {
+        3 | 4 | 5 => end_by_conversion(bump, it, end % 6),
         0 => drop(bump),
         1 => {
             bump.reset();
@@ -649,6 +650,91 @@ where
         }
     }
     it.finish();
+}
+
+/// End of a run by a conversion that has a run-time requirement (C18): `with_settings` to a guaranteed-allocated
+/// type needs a chunk, to a non-claimable type needs an unclaimed arena; it must panic exactly when the requirement
+/// is not met, and otherwise hand over the arena unchanged with an aligned position.
+fn end_by_conversion<A, S>(bump: Bump<A, S>, it: &mut Interp<'_>, how: u64)
+where
+    A: BaseAllocator<S::GuaranteedAllocated> + BaseAllocator<bump_scope::settings::True> + Default,
+    S: BumpAllocatorSettings,
+{
+    fn settle<A2, S2>(it: &mut Interp<'_>, r: std::thread::Result<Bump<A2, S2>>, must_panic: bool, needle: &str, before: (usize, usize), what: &str)
+    where
+        A2: BaseAllocator<S2::GuaranteedAllocated>,
+        S2: BumpAllocatorSettings,
+    {
+        match r {
+            Ok(nb) => {
+                if must_panic {
+                    if it.on.c18 {
+                        it.viol("C18/conversion-accepted", format!("{what} returned although its requirement is not met"));
+                    }
+                    // do not touch the converted arena: its type promises something that is not true
+                    std::mem::forget(nb);
+                    it.skip_final_ledger = true;
+                    return;
+                }
+                if it.abort_run {
+                    // a known finding was observed earlier in this run: the state is tainted, no more checks
+                    drop(nb);
+                    return;
+                }
+                let st = nb.stats();
+                let now = (st.allocated(), st.count());
+                if it.on.c18 && now != before {
+                    it.viol("C18/conversion-changed-arena", format!("{what}: allocated/chunks {before:?} -> {now:?}"));
+                }
+                if let Some(c) = st.current_chunk() {
+                    let pos = c.bump_position().as_ptr() as usize;
+                    if it.on.c18 && pos % S2::MIN_ALIGN != 0 {
+                        it.viol("C18/position-unaligned", format!("{what}: position {pos:#x} not a multiple of {}", S2::MIN_ALIGN));
+                    }
+                }
+                it.stats.probe("c18.conversion_ok");
+                drop(nb);
+            }
+            Err(p) => match classify_panic(p) {
+                Caught::Harness(m) => harness_bug(m),
+                Caught::Library(m) => {
+                    if !must_panic {
+                        if it.on.c18 {
+                            it.viol("C18/conversion-rejected", format!("{what} panicked ({m}) although its requirement is met"));
+                        }
+                    } else {
+                        if it.on.c18 && !m.contains(needle) {
+                            it.viol("C18/conversion-rejected", format!("{what} panicked with an unexpected message: {m}"));
+                        }
+                        it.stats.probe("c18.conversion_refused");
+                    }
+                }
+                Caught::Injected(_) => harness_bug("injected panic in a conversion".into()),
+            },
+        }
+    }
+    let st = bump.stats();
+    let before = (st.allocated(), st.count());
+    let unallocated = bump.as_scope().any_stats().current_chunk().is_none() && st.count() == 0;
+    match how {
+        3 => {
+            let r = catch_unwind(AssertUnwindSafe(move || bump.with_settings::<S::WithGuaranteedAllocated<true>>()));
+            settle(it, r, unallocated, "unallocated", before, "with_settings to a guaranteed-allocated type");
+        }
+        4 => {
+            let r = catch_unwind(AssertUnwindSafe(move || bump.with_settings::<S::WithClaimable<false>>()));
+            settle(it, r, false, "claimed", before, "with_settings to a non-claimable type (arena not claimed)");
+        }
+        _ => {
+            // a leaked claim guard leaves the arena claimed for good
+            std::mem::forget(bump.as_scope().claim());
+            it.stats.probe("c18.conversion_of_claimed");
+            let r = catch_unwind(AssertUnwindSafe(move || bump.with_settings::<S::WithClaimable<false>>()));
+            // the chunks now belong to the leaked guard: they are never released
+            it.skip_final_ledger = true;
+            settle(it, r, true, "claimed", (0, 0), "with_settings to a non-claimable type (arena claimed)");
+        }
+    }
 }
 
 fn run_reset_loop<A, S>(bump: &mut Bump<A, S>, it: &mut Interp<'_>, rounds: u64)
